@@ -161,8 +161,10 @@ func ReplyFor(f Fault) (int, string, string) {
 	}
 	esc := fmt.Sprintf("%s.5.%d", d, f.K)
 	switch f.Shape {
-	case "lead", "multi":
+	case "lead", "multi", "multiterse":
 		return code, esc + " rejected by script", esc
+	case "terse": // nothing but the enhanced status code
+		return code, esc, esc
 	case "later":
 		return code, fmt.Sprintf("rejected by script, see host 4.2.2.%d for policy", f.K), ""
 	}
@@ -269,6 +271,9 @@ func (x *session) reply(k Key, okText string, caps []string) bool {
 	x.emit("reply", "code", code, "cls", f.Class, "esc", esc, "caps", []string{})
 	if f.Shape == "multi" { // a multi-line negative reply (RFC 5321 4.2.1), the enhanced code on every line
 		return x.write(fmt.Sprintf("%d-%s\r\n%d-%s see policy\r\n%d %s\r\n", code, text, code, esc, code, text)) == nil
+	}
+	if f.Shape == "multiterse" { // the first line carries the enhanced code only
+		return x.write(fmt.Sprintf("%d-%s\r\n%d %s\r\n", code, esc, code, text)) == nil
 	}
 	return x.write(fmt.Sprintf("%d %s\r\n", code, text)) == nil
 }
